@@ -48,11 +48,13 @@ func vArmAfterCfg(x *xferWorld) func() bool {
 // vOnChunk calls f once, at a tape-chosen chunk written on any hop after armed() holds.
 func vOnChunk(rc *runCtx, x *xferWorld, armed func() bool, pm int, f func()) *bool {
 	fired := new(bool)
+	fr := &vFirer{rc: rc, label: "ctl.fire", pm: pm, once: true}
+	x.firers = append(x.firers, fr)
 	hook := func(l *verifsim.Link, d []byte) {
 		if *fired || !armed() || x.server.Exited {
 			return
 		}
-		if rc.tape.Bool("ctl.fire", pm) {
+		if fr.fire() {
 			*fired = true
 			f()
 		}
@@ -124,6 +126,9 @@ func vScenarioC10(rc *runCtx) {
 	w := rc.w
 	armed := vArmAfterCfg(x)
 	how := []string{"user-keep", "user-delete", "api-keep", "api-delete", "sigint", "sigterm"}[tp.Draw("c10.how", 6)]
+	if v, ok := rc.enumInt("enum_kind"); ok {
+		how = []string{"user-keep", "user-delete", "api-keep", "api-delete", "sigint", "sigterm"}[v%6]
+	}
 	del := strings.HasSuffix(how, "delete")
 	var stopAt time.Duration = -1
 	pm := []int{30, 100, 400}[tp.Draw("c10.rate", 3)]
@@ -163,6 +168,7 @@ func vScenarioC10(rc *runCtx) {
 	rc.res.Scenario["server_fail"] = vClip(rep.serverFail, 200)
 	rc.res.Scenario["server_text"] = vClip(rep.serverText, 200)
 	rc.res.Scenario["stop_at"] = stopAt.String()
+	rc.res.Scenario["enum_places"] = x.firerPlaces()
 	if stopAt < 0 {
 		vCheckFidelity(rc, x, rep, before, false)
 		rc.res.Nontrivial = false
@@ -314,6 +320,10 @@ func vScenarioC18(rc *runCtx) {
 	cycles := 1 + tp.Pick("c18.cycles", 5, 2, 1)
 	// pause length relative to the timeout
 	dsel := tp.Draw("c18.d", 6)
+	if v, ok := rc.enumInt("enum_kind"); ok {
+		dsel = v % 6
+		cycles = 1
+	}
 	frac := []float64{0.02, 0.3, 0.8, 1.0, 1.2, 3.0}[dsel]
 	d := time.Duration(float64(T) * frac)
 	band := "short"
@@ -358,6 +368,7 @@ func vScenarioC18(rc *runCtx) {
 	rc.res.Scenario["client_fail"] = vClip(rep.clientFail, 200)
 	rc.res.Scenario["server_fail"] = vClip(rep.serverFail, 200)
 	rc.res.Scenario["pauses_done"] = done
+	rc.res.Scenario["enum_places"] = x.firerPlaces()
 	if done == 0 {
 		vCheckFidelity(rc, x, rep, before, false)
 		rc.res.Nontrivial = false
